@@ -216,6 +216,8 @@ fn main() {
             run_one("update-race", &upd, lim(40, 4, true, if thorough { 400 } else { 30 }), &mut ev, &mut rep, "graph/sched");
             let buf = c20::buffer_scenario();
             run_one("send-buffer", &buf, lim(if thorough { 7 } else { 5 }, 3, false, if thorough { 600 } else { 30 }), &mut ev, &mut rep, "tree");
+            let gbuf = c20::gated_buffer_scenario();
+            run_one("send-buffer-slow-server", &gbuf, lim(if thorough { 8 } else { 6 }, 3, false, if thorough { 600 } else { 30 }), &mut ev, &mut rep, "tree");
             let (n, samples) = c20::run_unsubscribe(&mut rep);
             ev.add("evaluations", n);
             ev.set("unsubscribe_variants_checked", serde_json::json!(n));
@@ -316,9 +318,15 @@ fn main() {
                     Tiered { quick: lim(3, 2, false, 40), thorough: lim(4, 3, false, 600) },
                     "tree",
                 ),
+                (
+                    "adversary-key-shapes".into(),
+                    Box::new(props_session::c17_keys(&known)),
+                    Tiered { quick: lim(1, 1, false, 40), thorough: lim(2, 1, false, 600) },
+                    "tree",
+                ),
             ],
             SESSION_ASSUMPTIONS,
-            "every sequence of adversary lines (all request kinds with valid/invalid/absurd arguments, malformed and undecodable lines) interleaved with witness requests, each followed by a fixed witness script whose answers the reference predicts; harness built with debug assertions and overflow checks; distinct_nontrivial counts distinct line kinds",
+            "third scenario: every request kind that takes a key, pattern or parent crossed with 26 key shapes at the edges of the server's special cases ($SYS/clients/<id> guard at every length for the own and another client, empty segments, wildcards in every position, nested keys), singly (quick) and in pairs (thorough); first two: every sequence of adversary lines (all request kinds with valid/invalid/absurd arguments, malformed and undecodable lines) interleaved with witness requests, each followed by a fixed witness script whose answers the reference predicts; harness built with debug assertions and overflow checks; distinct_nontrivial counts distinct line kinds",
         ),
         "C02" => {
             let mut v: Vec<(String, Box<dyn Scenario>, Tiered, &'static str)> = vec![];
